@@ -12,6 +12,7 @@ pub mod c14;
 pub mod c15;
 pub mod c16;
 pub mod c17;
+pub mod c18;
 #[cfg(rustls_rcgen_verif)]
 pub mod c20;
 pub mod certfam;
@@ -33,6 +34,7 @@ pub fn run(prop: &str, tier: &str, replay: Option<&str>) -> i32 {
         "C15" => c15::run(prop, tier, replay),
         "C16" => c16::run(prop, tier, replay),
         "C17" => c17::run(prop, tier, replay),
+        "C18" => c18::run(prop, tier, replay),
         #[cfg(rustls_rcgen_verif)]
         "C20" => c20::run(prop, tier, replay),
         _ => {
